@@ -3,6 +3,7 @@
 // exactly at the upper guard, starting exactly at the lower guard, and at every element-aligned offset of a
 // cache line.  A load/store that touches a byte outside [p, p+size) either faults (caught, reported) or
 // destroys a canary (stores) .  Values are compared with a memcpy / static_cast model.
+#include <algorithm>
 #include <rapidcheck.h>
 #include <sys/mman.h>
 
@@ -271,11 +272,173 @@ static uint64_t target_alignment(const Target& tg, const char* tname)
 }
 
 // run one case; returns true if it passed
+// ---------------------------------------------------------------- gather / scatter with indices at the ends of the index type
+// A 64 GiB PROT_NONE reservation (no memory is committed); the base pointer sits in its middle, so every index the index
+// type can hold for 8/16/32-bit lanes, and 64-bit indices up to +-2^32, address a byte of the reservation.  Only the pages
+// of the indexed elements are made accessible for the duration of one case: an index that is truncated, sign-extended the
+// wrong way or scaled in too narrow an integer lands on an inaccessible page (fault, reported) or on another element.
+static unsigned char* g_far_center = nullptr;
+static const int64_t kFarHalf = (int64_t)1 << 35;
+static bool far_setup()
+{
+    if (g_far_center)
+        return true;
+    void* b = mmap(nullptr, (size_t)2 * kFarHalf + 65536, PROT_NONE, MAP_PRIVATE | MAP_ANONYMOUS | MAP_NORESERVE, -1, 0);
+    if (b == MAP_FAILED)
+        return false; // address-space limit: the far cases are skipped (counted), never reported
+    g_far_center = (unsigned char*)b + kFarHalf + 4096;
+    return true;
+}
+static bool is_far_case(const MemCase& c, int rb)
+{
+    if (c.payload == 9) // the extreme-index class marks its cases (small unsigned 8-bit indices look like ordinary ones)
+        return true;
+    for (auto i : c.idx)
+        if (i < 0 || (uint64_t)i * (uint64_t)rb >= kRW)
+            return true;
+    return false;
+}
+static bool exec_far(Context& cx, const MemCase& c, const Target& tg, const xsv_entry* e, const OpInfo& oi)
+{
+    const int n = e->lanes;
+    const int rb = kTypeBytes[oi.reg];
+    if (!far_setup())
+    {
+        cx.st.cls("far_index_cases_skipped_no_address_space");
+        return true;
+    }
+    alignas(64) unsigned char img[256], out[256], idximg[256];
+    memset(out, 0xCD, sizeof out);
+    std::vector<unsigned char*> pages;
+    auto open_elem = [&](int64_t idx) {
+        unsigned char* a0 = g_far_center + idx * (int64_t)rb;
+        for (unsigned char* pg = (unsigned char*)((uintptr_t)a0 & ~(uintptr_t)4095); pg <= (unsigned char*)((uintptr_t)(a0 + rb - 1) & ~(uintptr_t)4095); pg += 4096)
+            if (std::find(pages.begin(), pages.end(), pg) == pages.end())
+            {
+                mprotect(pg, 4096, PROT_READ | PROT_WRITE);
+                for (size_t k = 0; k < 4096; k += 8)
+                {
+                    uint64_t w = mix64(c.seed + (uint64_t)(uintptr_t)(pg + k));
+                    memcpy(pg + k, &w, 8);
+                }
+                pages.push_back(pg);
+            }
+    };
+    for (int i = 0; i < n; ++i)
+    {
+        int64_t v = c.idx[i];
+        memcpy(idximg + (size_t)i * rb, &v, rb);
+        open_elem(c.idx[i]);
+    }
+    xsv_args a;
+    memset(&a, 0, sizeof a);
+    a.in[1] = idximg;
+    cx.current_valid = true;
+    cx.current = mkviol(c, tg, -1, "", "", "");
+    std::string why, exp, got;
+    int lane = -1;
+    bool ok = true;
+    bool known_hit = false;
+    auto run = [&]() -> bool {
+        g_armed = 1;
+        if (sigsetjmp(g_jmp, 1) == 0)
+        {
+            e->fn(&a);
+            g_armed = 0;
+            return true;
+        }
+        char b[96];
+        snprintf(b, sizeof b, "%p", g_fault_addr);
+        const long long d = (long long)((unsigned char*)g_fault_addr - g_far_center);
+        // D34 (open): the hardware gathers/scatters of AVX2 / AVX-512 read their 32-bit indices as signed; an unsigned 32-bit
+        // index >= 2^31 addresses base + (int32)index * 4.  Inside the class the fault must be exactly at that element.
+        if (cx.opt.known.count("gather_index32_signed") && !oi.idx_signed && rb == 4)
+            for (int i = 0; i < n; ++i)
+                if (c.idx[i] >= ((int64_t)1 << 31) && d >= (long long)(int32_t)(uint32_t)c.idx[i] * 4 && d < (long long)(int32_t)(uint32_t)c.idx[i] * 4 + 4)
+                {
+                    cx.st.known_hits++;
+                    cx.st.known_by_class["gather_index32_signed"]++;
+                    known_hit = true;
+                    return false;
+                }
+        why = std::string("memory fault at ") + b + " = base" + (d >= 0 ? "+" : "") + std::to_string(d) + " bytes: none of the indexed elements lives there (indices are " + (oi.idx_signed ? "signed " : "unsigned ") + std::to_string(8 * rb) + "-bit values)";
+        return false;
+    };
+    if (oi.kind == OpInfo::GATHER)
+    {
+        a.in[0] = g_far_center;
+        a.out[0] = out;
+        ok = run();
+        for (int i = 0; ok && i < n; ++i)
+        {
+            cx.st.lane_checks++;
+            const unsigned char* src = g_far_center + c.idx[i] * (int64_t)rb;
+            if (memcmp(out + (size_t)i * rb, src, rb))
+            {
+                ok = false;
+                lane = i;
+                exp = lane_str(oi.reg, src);
+                got = lane_str(oi.reg, out + (size_t)i * rb);
+                why = "gathered lane " + std::to_string(i) + " is not src[" + std::to_string(c.idx[i]) + "]";
+            }
+        }
+    }
+    else
+    {
+        for (int i = 0; i < n; ++i)
+        {
+            uint64_t v = mix64(c.seed * 131 + i) | 1;
+            memcpy(img + (size_t)i * rb, &v, rb);
+        }
+        a.in[0] = img;
+        a.out[0] = g_far_center;
+        ok = run();
+        // expected content of every opened page: its pattern, with the indexed elements replaced
+        for (size_t pi = 0; ok && pi < pages.size(); ++pi)
+        {
+            unsigned char want[4096];
+            for (size_t k = 0; k < 4096; k += 8)
+            {
+                uint64_t w = mix64(c.seed + (uint64_t)(uintptr_t)(pages[pi] + k));
+                memcpy(want + k, &w, 8);
+            }
+            for (int i = 0; i < n; ++i)
+                for (int b = 0; b < rb; ++b)
+                {
+                    unsigned char* ad = g_far_center + c.idx[i] * (int64_t)rb + b;
+                    if (ad >= pages[pi] && ad < pages[pi] + 4096)
+                        want[ad - pages[pi]] = img[(size_t)i * rb + b];
+                }
+            cx.st.lane_checks++;
+            if (memcmp(want, pages[pi], 4096))
+            {
+                ok = false;
+                why = "scatter: a byte of the page at base" + std::to_string((long long)(pages[pi] - g_far_center)) + " is wrong (exactly the indexed elements must change)";
+            }
+        }
+    }
+    g_armed = 0;
+    for (auto pg : pages)
+    {
+        madvise(pg, 4096, MADV_DONTNEED);
+        mprotect(pg, 4096, PROT_NONE);
+    }
+    cx.current_valid = false;
+    cx.st.executions++;
+    if (known_hit)
+        return true;
+    if (!ok)
+        cx.add_violation(mkviol(c, tg, lane, exp, got, why));
+    return ok;
+}
+
 static bool exec_case(Context& cx, const MemCase& c, const Target& tg, const xsv_entry* e)
 {
     const OpInfo oi = parse_op(c.op, c.type);
     const int n = e->lanes;
     const int rb = c.type == C32 ? 4 : (c.type == C64 ? 8 : kTypeBytes[oi.reg]); // scalar component size for complex
+    if ((oi.kind == OpInfo::GATHER || oi.kind == OpInfo::SCATTER) && is_far_case(c, rb))
+        return exec_far(cx, c, tg, e, oi);
     const int mb = kTypeBytes[oi.mem];
     unsigned char* R = g_region;
     alignas(64) unsigned char img[256], out[256];
@@ -854,6 +1017,56 @@ int main(int argc, char** argv)
                     for (int i = 0; i < n; ++i)
                         v[i] = i / 2;
                     run_idx(v, len, "repeated", s0 + 4);
+                }
+                {
+                    // indices at the ends of the index type (negative ones for signed index types), each lane a different one
+                    const int bits = 8 * rb;
+                    std::vector<int64_t> ext;
+                    if (oi.idx_signed)
+                    {
+                        const int64_t mx = bits == 64 ? ((int64_t)1 << 32) - 5 : (((int64_t)1 << (bits - 1)) - 1), mn = bits == 64 ? -((int64_t)1 << 32) + 11 : -((int64_t)1 << (bits - 1));
+                        ext = { mx, mn, mx - 9, mn + 4, -1, -2, mx / 2 + 1, mn / 2 - 3 };
+                        if (bits == 64)
+                            for (int64_t v : { (int64_t)1 << 31, ((int64_t)1 << 31) + 7, -((int64_t)1 << 31) - 1, -((int64_t)1 << 31) })
+                                ext.push_back(v);
+                    }
+                    else
+                    {
+                        const int64_t mx = bits == 64 ? ((int64_t)1 << 32) - 1 : (int64_t)((((uint64_t)1 << (bits - 1)) << 1) - 1);
+                        ext = { mx, mx - 7, mx / 2 + 1, mx / 2 + 78, mx / 2, 12 };
+                        if (bits == 64)
+                            for (int64_t v : { (int64_t)1 << 31, ((int64_t)1 << 31) + 7 })
+                                ext.push_back(v);
+                    }
+                    // a pool of pairwise distinct indices inside the range of the index type, the extreme ones first
+                    const int64_t lo = oi.idx_signed ? (bits == 64 ? -((int64_t)1 << 32) + 8 : -((int64_t)1 << (bits - 1))) : 0;
+                    const int64_t hi = oi.idx_signed ? (bits == 64 ? ((int64_t)1 << 32) - 2 : (((int64_t)1 << (bits - 1)) - 1)) : (bits == 64 ? ((int64_t)1 << 32) - 1 : (int64_t)((((uint64_t)1 << (bits - 1)) << 1) - 1));
+                    std::vector<int64_t> pool;
+                    for (int64_t d = 0; (int)pool.size() < 2 * n + (int)ext.size() && d < 4096; ++d)
+                        for (int64_t b0 : ext)
+                            for (int sg = -1; sg <= 1; sg += 2)
+                            {
+                                const int64_t v = b0 + sg * d * 7;
+                                if (v >= lo && v <= hi && std::find(pool.begin(), pool.end(), v) == pool.end())
+                                    pool.push_back(v);
+                            }
+                    for (int rot = 0; rot < (int)std::min<size_t>(ext.size(), (size_t)budget + 1) && (int)pool.size() >= n; ++rot)
+                    {
+                        std::vector<int64_t> fv(n);
+                        for (int i = 0; i < n; ++i)
+                            fv[i] = pool[(size_t)(i + rot * 3) % pool.size()];
+                        MemCase c;
+                        c.op = op;
+                        c.type = t;
+                        c.idx = fv;
+                        c.imm = 0;
+                        c.seed = s0 + 77 + (uint64_t)rot;
+                        c.offset = 0;
+                        c.payload = 9;
+                        c.place = "extreme_indices";
+                        note_case(cx, c, true);
+                        exec_case(cx, c, tg, e);
+                    }
                 }
                 rc::detail::TestParams params = rc::detail::configuration().testParams;
                 params.seed = mix64(params.seed ^ s0);
